@@ -8,7 +8,7 @@ from .C01 import compare_traj, outcome  # noqa: F401
 
 RULE = ("objects as in C01/C10 with positive durations; per object every ordering of 5 probe times (boundaries, one ulp "
         "around, interior, before start, beyond end, +-inf) for a sample of objects, plus long random sequences (40 queries) "
-        "mixing position/velocity/acceleration (trajectory) and yaw/yaw-rate/duration (yaw player) with repeats and back-jumps. "
+        "mixing position/velocity/acceleration/total-duration (trajectory player) and yaw/yaw-rate/duration (yaw player) with repeats and back-jumps. "
         "Non-trivial = a history of >= 2 queries on an object with >= 2 segments (setpoints).")
 EXPLANATION = ("token flag per query from the harness: '=' bit-for-bit equal to a fresh player, 'b' differs but t is exactly a "
                "boundary and the used segment adjoins it, 'X' anything else (violation); positions also within tolerance of the exact model")
@@ -29,7 +29,7 @@ def cases(rng, tier):
             rng.shuffle(perms)
             perms = perms[:24]
         for pm in perms:
-            qs = [rng.choice("ppva") + fhex(probes[k]) for k in pm]
+            qs = [rng.choice("ppvad") + fhex(probes[k]) for k in pm]
             yield ("traj h %s %s" % (b, ",".join(qs)), "perm5")
     for i in range(3000 if thorough else 300):
         tr = G.rand_traj(rng, nseg=rng.choice([2, 3, 5, 8]))
@@ -38,7 +38,7 @@ def cases(rng, tier):
         qs = []
         for _ in range(40):
             t = rng.choice(cand)
-            qs.append(rng.choice("pppvva") + fhex(t))
+            qs.append(rng.choice("pppvvad") + fhex(t))
             if rng.random() < 0.2:
                 qs.append(rng.choice("pva") + fhex(t))       # repeat
         yield ("traj h %s %s" % (b, ",".join(qs)), "long")
